@@ -25,7 +25,7 @@ for p in props:
                                   "discharged by z3 function by function (callers see callee contracts only); an obligation that is not "
                                   "discharged makes the check fail. BOUNDED stand-in, run alongside, reported separately and never counted "
                                   "as proved: " + m.get("bounded", "executable contracts vs a brute-force oracle on small networks") + ".",
-                          "design_ref": f"DESIGN.md section 7 ({pid})"},
+                          "design_ref": f"DESIGN.md section 0 (as built: 0.3 functions, 0.4 assumptions, 0.7 seeded changes) and section 7 ({pid})"},
         "level_note": "Trusted: " + "; ".join(m.get("trusted", [])) + "; assumed contracts on biodivine_aeon / clingo / networkx "
                       "(DESIGN.md section 4), cited or Lean-proved lemma instances (section 3), the pyvc front end and z3. "
                       + ("Excluded clauses: " + "; ".join(m["excluded"]) if m.get("excluded") else "No clause of the statement is excluded."),
